@@ -1,5 +1,5 @@
 """C07 - parsing and checking any text ends with a program or a located error (C07.R1-R3)."""
-from .. import mir
+from .. import mir, pcnull
 from ..core import CheckError
 from . import common, panics
 
@@ -17,10 +17,10 @@ EXPLANATION = (
     "StringView::position indexes its table only behind the !is_eof() guard and the end-of-text "
     "position behind a non-empty guard; the program parser ends in demand_eof; (R4) the lexer's "
     "character classes for &O / &H literals are subsets of the domains of the digit converters that "
-    "panic outside them (both tabulated over ASCII). Audited (J2) panic sites whose invariant is of the form `the parser demands X` carry a re-checked witness: the named parser constructor builds no parser that is optional by its combinator type.")
+    "panic outside them (both tabulated over ASCII). (R2) every instantiation of the repetition combinators (ManyParser, ManyCtxParser, DelimitedParser) is enumerated from the types of MIR locals; its element (delimiter) is not optional by its combinator type, otherwise the repetition never sees a soft failure and loops forever. Audited (J2) panic sites whose invariant is of the form `the parser demands X` carry a re-checked witness: the named parser constructor builds no parser that is optional by its combinator type.")
 NOT_DECIDED = [
     "absence of arithmetic-overflow panics (debug profile only) and of stack overflow on deep nesting",
-    "C07.R2 termination of repetition (nullability of many/delimited element parsers): not built in this revision",
+    "termination of repetitions whose element is optional for a reason the type does not show (a boxed choice with an optional alternative, a repetition that allows none inside a repetition, recursion through a lazy parser)",
     "that the reported row/column lies inside the text (value-level)",
 ]
 
@@ -107,8 +107,51 @@ def r4_token_classes_within_converter_domains(ctx, rule="C07.R4"):
     ctx.require(rule, 2)
 
 
+def r2_repetitions_make_progress(ctx, rule="C07.R2"):
+    """`loop forever`: ManyParser / ManyCtxParser repeat their element until it fails softly, and
+    DelimitedParser repeats element + delimiter until the delimiter fails softly. An element
+    (delimiter) that succeeds on every input - optional by its combinator type - never fails, so the
+    loop never ends. rusty_pc encodes the combinator tree in the parser's type, so every
+    instantiation of the three repetition types in the parser crates is enumerated from the types of
+    MIR locals and its element / delimiter type is judged by pcnull.provably_optional."""
+    prog = ctx.prog
+    seen = {}
+    for f in sorted(prog.fns.values(), key=lambda f: f.id):
+        if f.crate not in ("rusty_parser", "rusty_pc"):
+            continue
+        for l in f.body.locals:
+            ty = l["ty"]
+            if "ManyParser<" not in ty and "DelimitedParser<" not in ty and "ManyCtxParser<" not in ty:
+                continue
+
+            def cb(name, args, f=f):
+                if name in ("ManyParser", "ManyCtxParser") and args:
+                    seen.setdefault((name, "element", args[0]), f)
+                if name == "DelimitedParser" and len(args) >= 2:
+                    seen.setdefault((name, "delimiter", args[1]), f)
+            pcnull.walk(ty, cb)
+    n = 0
+    per_fn = {}
+    for (name, role, ty), f in sorted(seen.items(), key=lambda kv: (kv[1].id, kv[0])):
+        if ty in ("P", "D", "Self"):
+            continue    # the generic definitions in rusty_pc themselves
+        owner = (prog.enclosing_fn(f) or f).path.split("::", 1)[1]
+        k = per_fn.get((owner, name, role), 0)
+        per_fn[(owner, name, role)] = k + 1
+        key = "%s:%s:%s:%s%s" % (rule, owner, name, role, "#%d" % k if k else "")
+        n += 1
+        ctx.decide(not pcnull.provably_optional(ty), rule, key, f.loc,
+                   "%s of %s is %s... : not optional by type" % (role, name, pcnull.head_chain(ty, 3)),
+                   "the %s of a %s built in %s is optional by its combinator type (%s...): it succeeds without "
+                   "consuming input, the repetition never sees a soft failure and parsing loops forever on any "
+                   "input that reaches it" % (role, name, owner, pcnull.head_chain(ty, 4)))
+    ctx.analysed_units(rule, repetition_instantiations=n)
+    ctx.require(rule, 15)
+
+
 def run(ctx):
     common.install(ctx)
     panics.r_audit(ctx, "C07.R1", scope="frontend")
+    r2_repetitions_make_progress(ctx)
     r3_error_position(ctx)
     r4_token_classes_within_converter_domains(ctx)
